@@ -50,6 +50,7 @@ class PaxosJudge:
         self.futures = []             # (node name, value, SimFuture)
         self.ballots = {}             # ballot -> dict
         self.maxprom = {}             # acceptor -> highest ballot it answered with Promise/Accepted
+        self.maxacc = {}              # acceptor -> (highest ballot it answered with Accepted, value)
         self.selfacc = {x.name: [] for x in nodes}   # (ballot, value) the node may have accepted
         self.seen = {}                # node -> first reported decision
         self.first = None             # (node, value) first decision reported by anybody
@@ -100,6 +101,18 @@ class PaxosJudge:
                     self.started.append(bal)
             elif t in ("PaxosPromise", "PaxosAccepted"):
                 bal = ballot_of(sm)
+                if t == "PaxosPromise":
+                    mine = self.maxacc.get(src)
+                    rep = None
+                    if sm.get("accepted_ballot_number") is not None:
+                        rep = (as_int(sm.get("accepted_ballot_number"), -1), str(sm.get("accepted_ballot_node")))
+                    if mine is not None and (rep is None or rep < mine[0]):
+                        self.v("a3-promise-hides-accepted-value",
+                               f"{src} promised ballot {bal} reporting accepted {rep} after it had sent Accepted for {mine[0]} ({short(mine[1])})")
+                elif delivered and et == "PaxosAccept":
+                    cur = self.maxacc.get(src)
+                    if cur is None or bal >= cur[0]:
+                        self.maxacc[src] = (bal, m.get("value"))
                 hi = self.maxprom.get(src)
                 if hi is not None and bal < hi:
                     self.v("a1-answered-lower-ballot", f"{src} sent {t} for ballot {bal} after answering ballot {hi}")
@@ -188,6 +201,9 @@ class PaxosJudge:
                     self.decided_by[x.name] = "learned"
                     if m.get("value") != val:
                         self.v("learned-value-differs-from-message", f"{x.name}: {short(val)} vs {short(m.get('value'))}")
+                else:
+                    self.v("d1-decided-without-any-accepted-message",
+                           f"{x.name} reports {short(val)} decided after a {et} event (neither an Accepted nor a Decided message)")
             elif self.seen[x.name] != val:
                 self.v("stability-decision-changed", f"{x.name}: {short(self.seen[x.name])} -> {short(val)}")
                 self.seen[x.name] = val
@@ -306,7 +322,8 @@ class LogJudge:
         self.maxprom = {}                   # acceptor -> highest ballot answered / started
         self.ballots = {}                   # ballot -> {"promises": [(from, entries)], "started_p2": bool}
         self.started = []                   # ballots in order of first Prepare
-        self.accepts = {}                   # (ballot, slot) -> [commands carried]
+        self.accepts = {}                   # (ballot, slot) -> [commands carried] (Accepts sent by the ballot's owner)
+        self.senders = {}                   # (slot, command) -> nodes that sent an Accept for it under any ballot
         self.own = {x.name: {} for x in nodes}      # node -> slot -> [(ballot number, command)] it may hold as acceptor
         self.acks = {x.name: {} for x in nodes}     # leader -> slot -> [(from, ballot, command)] Accepted delivered
         self.info = {}                      # id(metadata of an Accepted) -> (metadata, ballot, slot, command)
@@ -388,8 +405,11 @@ class LogJudge:
             elif t == pre + "Accept":
                 b = ballot_of(sm)
                 slot, cmd = as_int(sm.get("slot"), -1), sm.get("command")
+                self.senders.setdefault((slot, cmd), set()).add(src)
                 if b[1] != src:
-                    self.v("p0-accept-sent-under-foreign-ballot", f"{src} sent Accept(slot {slot}, {short(cmd)}) under ballot {b}")
+                    was = any(k[0][1] == src for k in self.accepts)
+                    self.v("p0-deposed-leader-replicates-under-foreign-ballot" if was else "p0-became-leader-under-foreign-ballot",
+                           f"{src} sent Accept(slot {slot}, {short(cmd)}) under ballot {b}")
                     continue
                 d = self.bal(b)
                 if not d["p2"]:
@@ -483,8 +503,10 @@ class LogJudge:
                 self.v("d1-earlier-slot-committed-without-its-own-quorum",
                        f"{x.name} committed slot {i}={short(cmd)} with matching Accepted from "
                        f"{sorted({str(a[0]) for a in acks if a[2] == cmd})} + self (Q2={self.q2}) when slot {trig} reached its quorum")
-            elif not sent:
+            elif x.name not in self.senders.get((i, cmd), ()):
                 self.v("d2-committed-command-never-sent-in-accept", f"{x.name} slot {i}: {short(cmd)}")
+            elif not sent:
+                pass        # replicated under a foreign ballot only: reported as p0
             elif len({a[0] for a in acks if a[0] != x.name}) + 1 < self.q2:
                 self.v("d1-same-acceptor-counted-twice",
                        f"{x.name} committed slot {i} after {len(acks)} Accepted from {sorted({str(a[0]) for a in acks})} + self, Q2={self.q2}")
@@ -720,18 +742,23 @@ def run_liveness(case, obl):
         def go(ev, i=i):
             cmd = f"c{i}"
             cmds.append(cmd)
-            facts["leader_at_submit"].append(L.is_leader)
-            if mode == 2:
+            if mode == 2:                      # judged when the forward event is handled (see step)
                 return [cl.Event(time=ev.time, event_type="MultiPaxosForward", target=L, daemon=True,
                                  context={"metadata": {"command": cmd}})]
             was = L.is_leader
+            facts["leader_at_submit"].append(was)
             futs.append((cmd, L.submit(cmd)))
             if mode == 1 and was:
                 return L._replicate_slot(L.log.last_index)
             return None
         cl.at(t_first + i * gap, "client", go)
 
+    was_leader = [False]
+
     def step(ev, out):
+        if ev.event_type == "MultiPaxosForward" and ev.target is L:
+            facts["leader_at_submit"].append(was_leader[0])       # leadership just before the forward was handled
+        was_leader[0] = L.is_leader
         for e in out:
             if e.event_type == pre + "Accept":
                 facts["sent"].add(meta(e).get("command"))
@@ -745,9 +772,8 @@ def run_liveness(case, obl):
     if status != "done":
         r.labels.append("inconclusive-" + status)
         return r
-    if not facts["leader_at_submit"] or not all(facts["leader_at_submit"]):
-        if not L.log.last_index and not any(facts["leader_at_submit"]) and not facts["sent"] and L.stats.commit_index == 0 \
-                and not getattr(L, "_leader", None):
+    if len(facts["leader_at_submit"]) < len(cmds) or not all(facts["leader_at_submit"]):
+        if not any(facts["leader_at_submit"]) and L.leader != L.name:
             v(f"leader-never-established-{variant}", f"{L.name} is not leader {t_first} ticks after start() (max delay {dmax})")
         else:
             v(f"leader-lost-leadership-without-competitor-{variant}",
